@@ -50,6 +50,8 @@ def check_read_to_value(ctx, rule):
         for c in conds:
             if c and c[1] is True and is_call(c[0], "core::slice::<impl [T]>::is_empty") and c[0][2][0] == ("param", 0):
                 # the emptiness test must come after the parse
+                if not val_ok:
+                    continue
                 e_bb = c[0][3][1]
                 p_bb = v[1][3][1]
                 guard_ok = rtv.cfg.dominates(p_bb, e_bb) and p_bb != e_bb
@@ -70,28 +72,11 @@ def check_read_to_value(ctx, rule):
 
 
 
-def check(ctx):
+def check_byte_api(ctx):
+    """R-2 / R-3: the byte-level API (from_slice, to_vec, from_tagged_slice, to_tagged_vec) is the trait defaults, which are
+    the compositions of read_to_value / into_writer with the Value-level conversions (re-used by C07, whose statement
+    quantifies over byte strings)"""
     prog = ctx.prog
-    # ---- R-1 ------------------------------------------------------------
-    sites = []
-    for f in prog.real_fns():
-        for bb, t in f.calls():
-            if is_from_reader(t):
-                sites.append((f, bb, t))
-    ctx.count("from_reader_call_sites", len(sites))
-    ctx.ob("R-1", "single-parser-entry", len(sites) == 1 and sites[0][0].key == READ,
-           "the only call of ciborium::de::from_reader* in the crate is in common::read_to_value",
-           where=", ".join("%s (%s)" % (f.key, f.where(bb)) for f, bb, _ in sites) or None,
-           detail={"sites": [f.key for f, _, _ in sites]})
-    check_read_to_value(ctx, "R-1")
-
-    # ---- who may call read_to_value ------------------------------------------
-    callers = sorted({f.key for f in prog.real_fns() for bb, t in f.calls() if callee_path(t) == READ})
-    allowed = {SER + "::from_slice", TSER + "::from_tagged_slice", "header::ProtectedHeader::from_cbor_bstr_depth"}
-    ctx.ob("R-1", "callers-of-read_to_value", set(callers) <= allowed and (SER + "::from_slice") in callers,
-           "read_to_value is called only by the trait defaults and the protected-header path",
-           detail={"callers": callers})
-
     # ---- R-2 no overrides ---------------------------------------------------
     n_ser = n_tser = 0
     for imp in prog.impls:
@@ -133,6 +118,31 @@ def check(ctx):
 
     fts = prog.fn(TSER + "::from_tagged_slice")
     _check_from_tagged(ctx, fts)
+
+
+def check(ctx):
+    prog = ctx.prog
+    # ---- R-1 ------------------------------------------------------------
+    sites = []
+    for f in prog.real_fns():
+        for bb, t in f.calls():
+            if is_from_reader(t):
+                sites.append((f, bb, t))
+    ctx.count("from_reader_call_sites", len(sites))
+    ctx.ob("R-1", "single-parser-entry", len(sites) == 1 and sites[0][0].key == READ,
+           "the only call of ciborium::de::from_reader* in the crate is in common::read_to_value",
+           where=", ".join("%s (%s)" % (f.key, f.where(bb)) for f, bb, _ in sites) or None,
+           detail={"sites": [f.key for f, _, _ in sites]})
+    check_read_to_value(ctx, "R-1")
+
+    # ---- who may call read_to_value ------------------------------------------
+    callers = sorted({f.key for f in prog.real_fns() for bb, t in f.calls() if callee_path(t) == READ})
+    allowed = {SER + "::from_slice", TSER + "::from_tagged_slice", "header::ProtectedHeader::from_cbor_bstr_depth"}
+    ctx.ob("R-1", "callers-of-read_to_value", set(callers) <= allowed and (SER + "::from_slice") in callers,
+           "read_to_value is called only by the trait defaults and the protected-header path",
+           detail={"callers": callers})
+
+    check_byte_api(ctx)
 
     # ---- R-4 protected header path ------------------------------------------------
     ph = prog.fn("header::ProtectedHeader::from_cbor_bstr_depth")
